@@ -13,8 +13,8 @@ make_scratch() {
   rsync -a --delete --exclude .git --exclude site --exclude ide --exclude docs --exclude '*.md' \
         --exclude internal/simrt --exclude internal/verifsim "$REPO"/ "$d"/ || infra "rsync"
   mkdir -p "$d/internal/simrt" "$d/internal/verifsim"
-  rsync -a "$VERIF/simrt/" "$d/internal/simrt/" || infra "rsync simrt"
-  rsync -a "$VERIF/harness/" "$d/internal/verifsim/" || infra "rsync harness"
+  rsync -a "${VERIF_SIMRT_DIR:-$VERIF/simrt}/" "$d/internal/simrt/" || infra "rsync simrt"       # (overrides: development only)
+  rsync -a "${VERIF_HARNESS_DIR:-$VERIF/harness}/" "$d/internal/verifsim/" || infra "rsync harness"
   [ -x "$VERIF/bin/instrument" ] || (cd "$VERIF/tools/instrument" && go build -o "$VERIF/bin/instrument" .) || infra "build instrument"
   (cd "$d" && "$VERIF/bin/instrument" -dir "$d" -sites "$d/sites.json") || infra "instrument failed"
 }
